@@ -31,6 +31,17 @@ ROLES = {  # role -> (dialect property, level creator class name, constructor th
 }
 
 
+RAPIDFUZZ_MODULE = {"levenshtein": "Levenshtein", "damerau_levenshtein": "DamerauLevenshtein", "jaro": "Jaro", "jaro_winkler": "JaroWinkler"}
+# pairs on which the documented metrics differ from their look-alikes (OSA vs unrestricted Damerau, Levenshtein vs Damerau,
+# Jaro vs Jaro-Winkler): every backend must return the same value for the function a role emits
+PROBE_PAIRS = [("ca", "abc"), ("brain", "briean"), ("martha", "marhata"), ("badc", "acbd"), ("ab", "ba"), ("martha", "marhta"),
+               ("dixon", "dicksonx"), ("kitten", "sitting"), ("smith", "smtih"), ("abcd", "abcd")]
+
+
+def probe_values(ex, name):
+    return [float(ex(f"SELECT {name}('{a}', '{b}')")) for a, b in PROBE_PAIRS]
+
+
 def sqlite_registered_udfs():
     """static reading of SQLiteAPI._register_udfs: sql name -> ('similarity'|'distance'|'other', rapidfuzz module)"""
     src = (REPO / "splink/internals/sqlite/database_api.py").read_text()
@@ -153,6 +164,10 @@ def extract(dialects, spark_exec=None):
                 notes[f"{d}:{role}"] = {"static": st, "probe": pk}
                 if registered and pk is not None and pk != kind:
                     raise Untranslatable(f"{d}/{role}: static reading says {kind}, probe says {pk}")
+                if st and st[1] != "direct" and st[1].rsplit(".", 1)[-1] != RAPIDFUZZ_MODULE[role]:
+                    # a distance / similarity, but of another metric than the role documents (e.g. OSA for Damerau-Levenshtein)
+                    notes[f"{d}:{role}:module"] = {"bound_to": st[1], "documented": "rapidfuzz.distance." + RAPIDFUZZ_MODULE[role]}
+                    kind = "other"
                 if registered != (pk is not None):
                     raise Untranslatable(f"{d}/{role}: static reading registered={registered}, probe {pk}")
             else:
